@@ -42,7 +42,7 @@ func (p *Proof) initialState() *State {
 
 // frame-level contract environment
 func (fr *Frame) env(st *State, localsFirst bool) *CEnv {
-	env := &CEnv{p: fr.p, pkg: pkgOfFunc(fr.fn), fn: fr.fn, vars: map[string]cvar{}, st: st, old: fr.entrySt}
+	env := &CEnv{p: fr.p, pkg: pkgOfFunc(fr.fn), fn: fr.fn, vars: map[string]cvar{}, st: st, old: fr.entrySt, loopEntry: fr.loopEntry}
 	if !localsFirst {
 		for i, prm := range fr.fn.Params {
 			if i < len(fr.args) {
@@ -70,6 +70,9 @@ func (fr *Frame) env(st *State, localsFirst bool) *CEnv {
 		return v.(Scalar).T, true
 	}
 	env.locals = func(name string, s *State) (Value, types.Type, bool) {
+		if name == "rangeexpr" && fr.rangeSeq != nil {
+			return fr.rangeSeq, fr.rangeSeqT, true
+		}
 		if name == "rangeindex" && fr.rangeCell != nil {
 			if v, ok := s.Locals[fr.rangeCell]; ok {
 				return v, fr.rangeCell.Typ, true
@@ -341,7 +344,8 @@ func (e *Engine) ProveFunction(fn *ssa.Function) (res *ProofResult) {
 		env.bindResults(fn, rv)
 		for k, cl := range c.Ensures {
 			g := env.evalBool(cl.Expr, cl.Src)
-			o := p.oblige(fmt.Sprintf("%s/ensures#%d", p.fname, k+1), "ensures", fn.Pos(), out.Guard, g, "postcondition: "+cl.Src)
+			_ = k
+			o := p.oblige(fmt.Sprintf("%s/ensures#%d", p.fname, cl.N), "ensures", fn.Pos(), out.Guard, g, "postcondition: "+cl.Src)
 			if len(fr.rets) > 1 {
 				for j, rp := range fr.rets {
 					e2 := fr.env(rp.st, false)
